@@ -134,6 +134,7 @@ class Interp:
         self.inline = inline or (lambda path: C.fn(path))
         self.skip_macros = skip_macros
         self.steps = 0
+        self._impls = {}
         self.max_steps = max_steps
         self.trace = []
 
@@ -423,14 +424,44 @@ class Interp:
             return
         self.ev(s, env)
 
+    def user_impl(self, adt, trait, name):
+        """Local impl of an operator trait for a local ADT (e.g. <FieldValue as PartialEq>::eq)."""
+        key = (adt, trait, name)
+        if key not in self._impls:
+            found = None
+            for f in self.C.fns:
+                if f.get("impl_trait") == trait and f.get("name") == name and (f.get("self_ty") or "") == adt:
+                    found = f
+            self._impls[key] = found
+        return self._impls[key]
+
     def binop(self, op, l, r, n):
         l = deref(l)
         r = deref(r)
+        if isinstance(l, Enum) and isinstance(r, Enum) and l.adt == r.adt:
+            if op in ("==", "!="):
+                f = self.user_impl(l.adt, "core::cmp::PartialEq", "eq")
+                if f is not None:
+                    res = self.truth(self.call_fn(f, [l, r]))
+                    return res if op == "==" else not res
+            if op in ("<", "<=", ">", ">="):
+                f = self.user_impl(l.adt, "core::cmp::PartialOrd", "partial_cmp")
+                if f is None:
+                    raise Unsupported("ordering of %s without a local PartialOrd impl" % l.adt)
+                o = deref(self.call_fn(f, [l, r]))
+                if o.variant == "None":
+                    return False
+                v = deref(o.fields[0]).variant
+                return {"<": v == "Less", "<=": v in ("Less", "Equal"), ">": v == "Greater", ">=": v in ("Greater", "Equal")}[op]
         if op in ("==", "!="):
             res = veq(l, r)
             return res if op == "==" else not res
         if op in ("<", "<=", ">", ">="):
-            if isinstance(l, Sym) and isinstance(r, Sym):
+            if isinstance(l, Sym) and isinstance(r, int) and not isinstance(r, bool) and l.rank is not None:
+                a, b = l.rank, r
+            elif isinstance(r, Sym) and isinstance(l, int) and not isinstance(l, bool) and r.rank is not None:
+                a, b = l, r.rank
+            elif isinstance(l, Sym) and isinstance(r, Sym):
                 if l.rank is None or r.rank is None:
                     raise Unsupported("ordering of unranked symbols")
                 a, b = l.rank, r.rank
